@@ -384,6 +384,11 @@ def judgeIts (prop : String) (st : DState) (fields : List String) (impl : Option
   | ["tx", src, dst, func, _egld, _esdt, args] =>
     match ofHex src, ofHex dst, parseArgs args with
     | some src, some dst, some args =>
+      -- C18: the issuing endpoint of a token manager, called directly (not through the service)
+      if prop == "C18" && w.kind dst == some .tokenManager && func == "deployInterchainToken" then
+        (if implOk impl && !modelOk then "VIOLATION:token-issuance-accepted-outside-rules"
+         else if implOk impl && modelOk && !same then "VIOLATION:token-issuance-effects-differ" else "ok")
+      else
       if w.kind dst != some .its then "ok" else
       if !itsObserves prop func then "ok" else
       -- C20: nothing pausable may go through while paused
@@ -458,12 +463,35 @@ def judgeIts (prop : String) (st : DState) (fields : List String) (impl : Option
              else "VIOLATION:transfer-with-data-callback-failed")
           else if !same then "VIOLATION:transfer-with-data-callback-effects-differ" else "ok"
         | .itsMetadata _ _ gas _, some _ =>
+          if prop == "C13" then
+            -- the metadata message leaves in the callback: it must go to the hub's trusted address as the table
+            -- says NOW (when the message leaves), never to a stale or absent entry
+            (if !implOk impl then "ok" else
+             let calls := (implEvents impl).filter (·.name == "contract_call_event")
+             if calls.isEmpty then "ok" else
+             let hubAddr := its.trusted Its.hubChain
+             if hubAddr.isEmpty then "VIOLATION:outbound-message-sent-without-trusted-route"
+             else if calls.all (fun e => e.topics.getD 1 [] == Its.hubChain && e.topics.getD 2 [] == hubAddr) &&
+                     calls.length == 1 then "ok"
+             else "VIOLATION:outbound-message-not-sent-to-trusted-peer")
+          else
           if prop != "C17" then "ok" else
           if !implOk impl && gas > 0 then
             (if !modelOk then "VIOLATION:gas-value-stranded-metadata-callback-failed"
              else "VIOLATION:gas-value-stranded-callback-failed-unexpectedly")
           else if implOk impl && !same then "VIOLATION:gas-callback-effects-differ" else "ok"
-        | .itsDeployRemote _ _ _ _ _ gas _, some _ =>
+        | .itsDeployRemote _ _ destChain _ _ gas _, some _ =>
+          if prop == "C13" then
+            -- the deployment message leaves in the callback: the route is the one the table prescribes NOW
+            (if !implOk impl then "ok" else
+             let calls := (implEvents impl).filter (·.name == "contract_call_event")
+             if calls.isEmpty then "ok" else
+             match Its.getCallParams its destChain [] with
+             | none => "VIOLATION:outbound-message-sent-without-trusted-route"
+             | some (c, a, _) =>
+               if calls.all (fun e => e.topics.getD 1 [] == c && e.topics.getD 2 [] == a) && calls.length == 1 then "ok"
+               else "VIOLATION:outbound-message-not-sent-to-trusted-peer")
+          else
           if prop == "C20" then
             (if its.paused && implOk impl && !modelOk then "VIOLATION:remote-deployment-completed-while-paused" else "ok")
           else
